@@ -83,7 +83,7 @@ type Group struct {
 	Order    []string           `json:"order"` // order in which the node lister returns this group's nodes
 	Lag      bool               `json:"lag"`   // view differs from api
 	Api      map[string]NodeObj `json:"api"`
-	View     map[string]NodeObj `json:"view,omitempty"`
+	View     map[string]NodeObj `json:"view"`
 	Pods     []Pod              `json:"pods"`
 	Asg      Asg                `json:"asg"`
 	Pc       Asg                `json:"pc"`
